@@ -80,6 +80,14 @@ class MirCheck:
             raise SymError(f"function pattern {pattern!r} matches {len(names)} items: {names[:5]}")
         return names[0]
 
+    def fn_in(self, type_name, method):
+        """the method `method` of the inherent/trait impl block for `type_name` (robust against line shifts)"""
+        eng = self.meta_engine()
+        names = [n for n in self.crate.by_method.get(method, []) if self.crate.items[n][0][0] == "fn" and (eng.impl_info(n) or (None, None))[1] == type_name]
+        if len(names) != 1:
+            raise SymError(f"{type_name}::{method} matches {len(names)} items: {names[:4]}")
+        return names[0]
+
     # ---- query construction
     def prove(self, name, eng, hyps, goal, on_sat=None, timeout=None, meta=None):
         f = list(eng.assumptions) + list(hyps) + [z3.Not(goal)]
@@ -102,6 +110,22 @@ class MirCheck:
             f = list(eng.assumptions) + list(hyps) + [o["formula"]]
             q = Query(f"{prefix}/{o['kind']}#{i}:{o['name']}", "side", f, "unsat", {"side_kind": o["kind"]}, timeout or self.timeout, on_sat, eng)
             self.queries.append(q)
+
+    def single_critical_section(self, prefix, eng, hyps, on_sat=None):
+        """structural atomicity obligation: on no path is the same lock acquired twice within the call (the protected
+        read-modify-write then sits in ONE critical section); single-threaded semantics cannot see the race itself"""
+        acq = getattr(eng, "lock_acquisitions", [])
+        n = 0
+        for i in range(len(acq)):
+            for j in range(i):
+                if acq[i]["lock"] != acq[j]["lock"]:
+                    continue
+                n += 1
+                f = list(eng.assumptions) + list(hyps) + [acq[i]["pc"], acq[j]["pc"]]
+                self.queries.append(Query(f"{prefix}/lock_acquired_once_per_call#{n}:{acq[i]['callee'].split('::')[-1]}", "side", f, "unsat",
+                                          {"side_kind": "atomicity"}, self.timeout, on_sat, eng))
+        if n == 0:
+            self.out.notes.append(f"{prefix}: every lock is acquired at most once per call syntactically ({len(acq)} acquisition site(s) executed)")
 
     def guarded(self, name, f):
         """run a piece of check construction; engine errors make that obligation inconclusive, not the whole run"""
@@ -318,7 +342,7 @@ class Src:
             self.hyps.append(c == term)
         return c
 
-    def map(self, name, key_width, template, probes, cap=None):
+    def map(self, name, key_width, template, probes, cap=None, finite=None):
         """arbitrary map probed at the given keys: symbolic = fresh arrays + pinned reads; concrete = stores of the pinned values"""
         from values import flatten
 
@@ -332,6 +356,9 @@ class Src:
                 for i, a in enumerate(arrs):
                     self.pin(f"{name}@{label}.v{i}", z3.Select(a, k))
             self.bv(f"{name}.count", 64)
+            if finite is not None:
+                # finite map: only the probed keys can be present (iteration / retain are then modelled)
+                m.enum = tuple((probes[l], finite[l]) for l in probes)
             return m
         present = z3.K(ks, z3.BoolVal(False))
         arrs = [z3.K(ks, _zero_like(l)) for l in leaves_t]
@@ -341,7 +368,8 @@ class Src:
                 arrs[i] = z3.Store(arrs[i], k, self.pin(f"{name}@{label}.v{i}", l))
         it = iter(arrs)
         val = vmap(template, lambda l: next(it))
-        return VMap(ks, present, val, self.bv(f"{name}.count", 64), bv(cap, 64) if cap is not None else None)
+        return VMap(ks, present, val, self.bv(f"{name}.count", 64), bv(cap, 64) if cap is not None else None,
+                    tuple((probes[l], finite[l]) for l in probes) if finite is not None else None)
 
     def case(self):
         """flat JSON-able dict of every declared input under the model (f64 as raw bits)"""
@@ -415,7 +443,7 @@ def _const_like(l, v):
     return z3.BitVecVal(int(v) & ((1 << l.size()) - 1), l.size())
 
 
-def make_replayer(ck, modname, driver, build, params=None):
+def make_replayer(ck, modname, driver, build, params=None, race_driver=None):
     """on_sat handler: run the native driver on the model's inputs, rebuild the goals on the observed post-state."""
     import json as _json
 
@@ -433,12 +461,22 @@ def make_replayer(ck, modname, driver, build, params=None):
         case["__driver"] = driver
         payload = {"property": ck.pid, "engine": "mirsym", "module": modname, "driver": driver, "params": params, "obligation": q.name, "case": case,
                    "model": {k: v for k, v in model.items() if k in src.decl}}
-        obs, transcript = kanicheck.native_driver(modname, driver, case)
+        use_driver = driver
+        if q.meta.get("side_kind") == "atomicity":
+            if race_driver is None:
+                return None, "no native stress driver for this atomicity obligation", None
+            use_driver = race_driver
+            payload["driver"] = race_driver
+        obs, transcript = kanicheck.native_driver(modname, use_driver, case)
         payload["observed"] = obs
         payload["transcript_tail"] = transcript[-1500:]
         rp = write_replay(ck.pid, q.name.replace("/", "_")[:100], payload)
         if obs is None:
             return None, "driver produced no observation: " + transcript[-400:], rp
+        if q.meta.get("side_kind") == "atomicity":
+            if obs.get("race_observed"):
+                return True, "native multi-threaded stress run observed the race: " + str(obs.get("detail", ""))[:200], rp
+            return False, "native stress run did not observe a race", rp
         if q.kind == "side":
             if obs.get("panicked"):
                 return True, "native run panicked: " + obs.get("panic_text", "")[-300:], rp
@@ -497,3 +535,29 @@ def replay_file(path, rebuild):
         print(f"VIOLATION property={d['property']} replay={path}")
         return 1
     return 0 if t is True else 2
+
+
+def run_async(eng, fn_name, args, st):
+    """execute an `async fn` to completion: build its state machine, poll it once, require Ready (a suspension is an error:
+    the modelled awaits -- uncontended locks, nested async fns -- never suspend).  -> (state, output value)"""
+    from values import VCoroutine, VOpaque as _VO
+
+    r = eng.call(fn_name, args, st)
+    if r is None:
+        raise SymError("async fn diverges before creating its future")
+    st1, co = r
+    if not isinstance(co, VCoroutine):
+        raise SymError(f"{fn_name} did not return an async state machine: {co!r}")
+    ref = eng.alloc(st1, co)
+    pin = VStruct([ref], "Pin")
+    cx = eng.alloc(st1, _VO("task::Context"))
+    body = eng.crate.body(fn_name + "::{closure#0}")
+    r2 = eng.run_body(body, [pin, cx], st1)
+    if r2 is None:
+        raise SymError("async body diverges")
+    st2, poll = r2
+    eng.oblige(st2, "suspension:" + fn_name.split("::")[-1] + " returned Pending", poll.idx != bv(0, 8), kind="assert")
+    if 0 not in poll.pay:
+        raise SymError("async body never completes")
+    st2.pc = z3.simplify(z3.And(st2.pc, poll.idx == bv(0, 8)))
+    return st2, poll.pay[0][0]
